@@ -15,7 +15,8 @@ EXPLANATION = (
     'only characters pyparsing skips (space, tab, CR, LF); (R3) no Keyword/Literal of create_grammar contains a literal blank between words '
     '(X.680 allows any white-space and comments between the words of OCTET STRING, BIT STRING, WITH COMPONENTS, ...); (R4) a single-line '
     'comment is replaced by exactly as many blanks as it is long, and the verbatim chunks tile the input; (R5) the error line reported by '
-    'parse_string is taken from the exception raised on the pre-passed text.  Not decided: equality of the parse result under all re-layouts '
+    'parse_string is taken from the exception raised on the pre-passed text; (R6) a depth counter that decides where a nested /* */ comment ends is '
+    'incremented in the same loop that decrements it (every opener passed while scanning is counted).  Not decided: equality of the parse result under all re-layouts '
     '(pyparsing white-space skipping is outside /repo); error columns.')
 F = 'asn1tools/parser.py'
 PYPARSING_WS = set(' \t\r\n')
@@ -192,12 +193,23 @@ def check(ctx):
                 verbatim_uppers.add(ast.unparse(x.slice.upper))
         n_repl = 0
         n_cursor = 0
+        # an appended local that is bound to the replacement text in the branches before the append: every binding is a replacement site
+        sites = []
         for c in appends:
             x = c.args[0]
+            binds_ = []
+            if isinstance(x, ast.Name):
+                binds_ = [a_ for a_ in walk_no_nested(pre) if isinstance(a_, ast.Assign) and len(a_.targets) == 1 and isinstance(a_.targets[0], ast.Name)
+                          and a_.targets[0].id == x.id and not isinstance(a_.value, (ast.Subscript, ast.Tuple))]
+            if binds_:
+                sites.extend((c, a_, a_.value) for a_ in binds_)
+            else:
+                sites.append((c, c, x))
+        for c, gnode, x in sites:
             src = ast.unparse(x)
             # which marker closes the region replaced here?  (the string constants of the enclosing tests)
             consts = set()
-            for t_, pol_ in flow.guards_of(c, pre):
+            for t_, pol_ in flow.guards_of(gnode, pre):
                 if pol_:
                     consts |= {k_.value for k_ in ast.walk(t_) if isinstance(k_, ast.Constant) and isinstance(k_.value, str)}
             multi = '*/' in consts
@@ -269,6 +281,40 @@ def check(ctx):
         ctx.instance('C14.R4', '%s verbatim cursor follows every replaced region (%d of %d); tail appended; result is the concatenation' % (fq, n_cursor, n_repl), 'ok' if ok else 'VIOLATION', node=pre, file=F)
         if not ok:
             ctx.violation('C14.R4', F, pre, fq, 'the verbatim chunks no longer tile the input around the blanked regions', stmt='tiling')
+
+    # ---- R6: /* */ comments nest (X.680 12.6.4).  A scanner that finds the end of a comment with a depth counter must count *every* opener it passes:
+    #      a counter that is decremented inside the loop that looks for closers has to be incremented (or re-counted) inside that same loop.
+    ctx.rule('C14.R6', 'nested /* */: the depth counter that decides where a comment ends sees every opener passed while scanning')
+    if pre is not None:
+        n6 = 0
+        for g_ in flow.local_reach(model, pre, limit=2):
+            for loop in [n for n in walk_no_nested(g_) if isinstance(n, (ast.For, ast.While))]:
+                inner = [n for st in loop.body for n in ast.walk(st)]
+                decs = {n.target.id for n in inner if isinstance(n, ast.AugAssign) and isinstance(n.op, ast.Sub) and isinstance(n.target, ast.Name)
+                        and isinstance(n.value, ast.Constant) and n.value.value == 1}
+                for v_ in sorted(decs):
+                    # a counter: compared with zero somewhere in the function (== 0, > 0, != 0, truth test of a while)
+                    tested = any(isinstance(n, ast.Compare) and isinstance(n.left, ast.Name) and n.left.id == v_ and isinstance(n.comparators[0], ast.Constant)
+                                 and n.comparators[0].value in (0, 1) for n in walk_no_nested(g_)) or \
+                        any(isinstance(n, ast.While) and isinstance(n.test, ast.Name) and n.test.id == v_ for n in walk_no_nested(g_))
+                    # ... that is about comment markers: the function mentions the closer
+                    about = any(isinstance(n, ast.Constant) and n.value == '*/' for n in ast.walk(g_)) or any(isinstance(n, ast.Constant) and n.value == '*/' for n in ast.walk(pre)) \
+                        or any('*/' in (a_ or '') for _c, _p, ls in scanners for a_ in ls)
+                    if not (tested and about):
+                        continue
+                    n6 += 1
+                    incs = [n for n in inner if (isinstance(n, ast.AugAssign) and isinstance(n.op, ast.Add) and isinstance(n.target, ast.Name) and n.target.id == v_)
+                            or (isinstance(n, ast.Assign) and any(isinstance(t_, ast.Name) and t_.id == v_ for t_ in n.targets) and v_ in names_in(n.value))]
+                    ok = bool(incs)
+                    ctx.instance('C14.R6', '%s: depth counter `%s` decremented in the loop at line %d, incremented there too: %s' % (Model.qual(g_), v_, loop.lineno, ok),
+                                 'ok' if ok else 'VIOLATION', node=loop, file=F)
+                    if not ok:
+                        ctx.violation('C14.R6', F, loop, Model.qual(g_),
+                                      'the loop that looks for the end of a /* */ comment only decrements `%s`: openers it passes while moving from one `*/` to the next are never '
+                                      'counted, so an outer comment that holds two inner comments one after the other ends too early (the rest of the comment is parsed as ASN.1)' % v_,
+                                      stmt='depth counter %s only decremented' % v_)
+        if n6 == 0:
+            ctx.instance('C14.R6', '%s: no depth counter found (nesting handled otherwise)' % Model.qual(pre), 'undecided', 'no counter-based scanner', nontrivial=False, node=pre, file=F)
 
     # ---- R3
     cg = model.func(F, 'create_grammar')
@@ -358,3 +404,12 @@ REFACTORS = [
     dict(name='multi-line replacement also keeps CR', file=F, quick=True,
          old="chunks.append(re.sub(r'[^\\n]',", new="chunks.append(re.sub(r'[^\\n\\r]',"),
 ]
+
+MUTANTS.append(dict(name='nested comment end found by counting the openers before the first closer only', file=F,
+                    old="""            if kind == '/*':
+                multi_line_comment_depth += 1
+            elif kind == '*/':
+                multi_line_comment_depth -= 1
+""", new="""            if kind == '*/':
+                multi_line_comment_depth -= 1
+""", expect='C14.R6'))
